@@ -5,6 +5,8 @@ import (
 	"errors"
 	"fmt"
 	"net"
+	"sort"
+	"storj.io/drpc/drpcwire"
 	"strings"
 	"sync"
 	"time"
@@ -137,6 +139,69 @@ func famServe(o *corr.Out) {
 			o.Oracle("C12:serve-waits-for-connections", desc, fmt.Sprintf("Serve returned but the accepted connection was closed %d times", closes))
 		case len(census) > 0:
 			o.Oracle("C12:no-goroutine-left", desc, "after Serve returned: "+strings.Join(census, " | "))
+		default:
+			o.OracleOK("C12:serve")
+		}
+		o.Explore(desc, true)
+		cancel()
+		a.Break()
+		b.Break()
+		d.Settle()
+	}
+}
+
+// famServeHostile: a peer sends packets no client would: undecodable metadata, metadata only, an
+// invoke on top of a running stream, a message for a stream that was never invoked.  ServeOne must
+// either go on serving or return; when it returns it has closed the transport once and left nothing.
+func famServeHostile(o *corr.Out) {
+	frame := func(kind drpcwire.Kind, sid, mid uint64, data []byte) []byte {
+		return drpcwire.AppendFrame(nil, drpcwire.Frame{Data: data, ID: drpcwire.ID{Stream: sid, Message: mid}, Kind: kind, Done: true})
+	}
+	cases := map[string][]byte{
+		"bad-metadata":             frame(drpcwire.KindInvokeMetadata, 1, 1, []byte{0x0a, 0x05, 0x01}),
+		"bad-metadata-then-invoke": append(frame(drpcwire.KindInvokeMetadata, 1, 1, []byte{0x0a, 0x05, 0x01}), frame(drpcwire.KindInvoke, 1, 2, []byte("/p/1/x"))...),
+		"metadata-only":            frame(drpcwire.KindInvokeMetadata, 1, 1, []byte{0x0a, 0x04, 0x0a, 0x00, 0x12, 0x00}),
+		"orphan-message":           frame(drpcwire.KindMessage, 3, 1, []byte("hello")),
+		"invoke-twice":             append(frame(drpcwire.KindInvoke, 1, 1, []byte("/p/1/w.x")), frame(drpcwire.KindInvoke, 1, 2, []byte("/p/1/x"))...),
+	}
+	var names []string
+	for n := range cases {
+		names = append(names, n)
+	}
+	sort.Strings(names)
+	for _, name := range names {
+		d := director.New()
+		srv := drpcserver.New(handler{&World{D: d, enc: &sm.Enc{}}})
+		p, a, b := director.NewPipe()
+		p.Flow = true
+		nb := &netEnd{End: b}
+		ctx, cancel := context.WithCancel(context.Background())
+		d.Go("serve1", func() string { return errName(srv.ServeOne(ctx, nb)) })
+		d.Settle()
+		_, _ = a.Write(cases[name])
+		d.Settle()
+		_, returned := d.Result("serve1")
+		desc := "serve-hostile " + name
+		if !returned {
+			// still serving is fine; then cancelling its context must end it
+			cancel()
+			d.Settle()
+			_, returned = d.Result("serve1")
+		}
+		gs, err := d.Settle()
+		census := d.Census(gs)
+		nb.mu.Lock()
+		closes := nb.closes
+		nb.mu.Unlock()
+		switch {
+		case err != nil:
+			o.Oracle("harness:not-quiescent", desc, err.Error())
+		case !returned:
+			o.Oracle("C12:serve-returns", desc, "ServeOne has not returned; blocked: "+strings.Join(census, " | "))
+		case closes != 1:
+			o.Oracle("C12:serve-waits-for-connections", desc, fmt.Sprintf("ServeOne returned and closed the transport %d times", closes))
+		case len(census) > 0:
+			o.Oracle("C12:no-goroutine-left", desc, "after ServeOne returned: "+strings.Join(census, " | "))
 		default:
 			o.OracleOK("C12:serve")
 		}
